@@ -341,7 +341,18 @@ fn gen_geo(r: &mut Rng) -> GeoCase {
             v
         }
         "project_onto" => vec![nrm(r), point(r, scale, off), point(r, scale, off)],
-        "project_onto_intersection" => vec![nrm(r), point(r, scale, off), nrm(r), point(r, scale, off), point(r, scale, off)],
+        "project_onto_intersection" => {
+            let n1 = nrm(r);
+            // every third pair is nearly parallel (two faces of a cell whose neighbours are a close pair of generators)
+            let n2 = if r.below(3) == 0 {
+                let eps = *r.pick(&[1e-2, 1e-3, 1e-4, 1e-5, 3e-6]);
+                let len = if nonunit { *r.pick(&[0.1, 0.5, 2., 3., 10.]) } else { 1. };
+                (n1.normalize() + eps * unit(r)).normalize() * len
+            } else {
+                nrm(r)
+            };
+            vec![n1, point(r, scale, off), n2, point(r, scale, off), point(r, scale, off)]
+        }
         "signed_volume_tet" | "signed_area_tri" | "sphere4" => {
             if structured {
                 // small integer coordinates: the canonical frames of the documentation among them
